@@ -25,7 +25,7 @@ THEOREMS = ['C04_tref_split_invariance', 'C04_tref_split_invariance_moist', 'C04
             'C04_whole_state_temperature_invariance', 'C04_whole_state_divergence_invariance',
             'C04_whole_state_vorticity_invariance', 'C04_whole_state_implicit_linear', 'C04_whole_state_resolvent',
             'C04_whole_state_hyps_satisfiable', 'C04_whole_state_resolvent_hyps_satisfiable', 'C04_whole_state_is_assembly_replay',
-            'C04_whole_state_split_invariance', 'C04_whole_state_split_hyps_satisfiable']
+            'C04_whole_state_split_invariance', 'C04_whole_state_split_hyps_satisfiable', 'C04_whole_state_moist_is_assembly']
 LEVEL = 'proof'
 LEVEL_TEXT = ('machine-checked theorems (Coq) for every field, every layer count K>=1, all level sets, all column data and '
               'any two reference profiles with the same absolute temperature: the nodal temperature tendency '
@@ -117,7 +117,8 @@ GRIDS = {'g5': dict(longitude_wavenumbers=4, total_wavenumbers=5, longitude_node
          'g47': dict(longitude_wavenumbers=4, total_wavenumbers=7, longitude_nodes=12, latitude_nodes=9),
          'g5l8': dict(longitude_wavenumbers=4, total_wavenumbers=5, longitude_nodes=8, latitude_nodes=6),
          # the tiny grid of the whole-state END-TO-END model (exactness obligations are checked on it as well)
-         't4': dict(longitude_wavenumbers=3, total_wavenumbers=4, longitude_nodes=8, latitude_nodes=4)}
+         't4': dict(longitude_wavenumbers=3, total_wavenumbers=4, longitude_nodes=8, latitude_nodes=4),
+         't3': dict(longitude_wavenumbers=2, total_wavenumbers=3, longitude_nodes=4, latitude_nodes=3)}
 
 
 def grid_of(name):
@@ -365,6 +366,15 @@ def _generate(ctx):
         yield 'whole_state', {'tgrid': tg, 'K': K, 'b': levels(K, r), 'T1': plateau(K) if r % 2 else profile(K), 'T2': profile(K),
                               'oro': oro, 'ntr': ntr, 'mode': mode, 'eta': [0.5, 0.125, 2.0][r % 3], 'seed': int(rng.integers(1 << 30)),
                               'phys': PHYS[r % 4]}
+    # moist / cloud-moist classes through the whole-state model (exact cost grows fast: the moist adiabatic term divides by nodal
+    # values; t3 K=2 ~15 s, t4 K=2 ~4 min)
+    mplan = [('moist', 't3', 2, 1, 0, 0.0)] if quick else \
+            [('moist', 't3', 2, 1, 0, 0.0), ('moist', 't3', 3, 0, 1, 0.0), ('cloud', 't3', 2, 1, 0, 0.0), ('cloud', 't3', 2, 0, 1, 1.0),
+             ('moist', 't4', 2, 1, 0, 0.0)]
+    for r, (cls, tg, K, oro, ntr, cl) in enumerate(mplan):
+        yield 'whole_state', {'cls': cls, 'tgrid': tg, 'K': K, 'b': levels(K, r), 'T1': plateau(K) if r % 2 else profile(K), 'T2': profile(K),
+                              'oro': oro, 'ntr': ntr, 'mode': 'full', 'cloud': cl, 'seed': int(rng.integers(1 << 30)), 'phys': PHYS[(r + 3) % 4]}
+    yield 'obligations', {'grid': 't3', 'seed': int(rng.integers(1 << 30))}
     # the exactness hypotheses of the concrete-operator theorems on the tiny grid (Leibniz: moist only, degree <= 1)
     yield 'obligations', {'grid': 't4', 'seed': int(rng.integers(1 << 30)), 'lq': 1}
 
@@ -773,7 +783,8 @@ def r_jit_order(ctx, a):
 # whole-state correspondence: the END-TO-END executable model (Model/PrimEqFull.v) against
 # compute_diagnostic_state / explicit_terms / implicit_terms / implicit_inverse on a tiny real grid
 # ---------------------------------------------------------------------------
-TINY = {'t4': dict(longitude_wavenumbers=3, total_wavenumbers=4, longitude_nodes=8, latitude_nodes=4),
+TINY = {'t3': dict(longitude_wavenumbers=2, total_wavenumbers=3, longitude_nodes=4, latitude_nodes=3),
+        't4': dict(longitude_wavenumbers=3, total_wavenumbers=4, longitude_nodes=8, latitude_nodes=4),
         't5': dict(longitude_wavenumbers=4, total_wavenumbers=5, longitude_nodes=12, latitude_nodes=6)}
 
 
@@ -797,7 +808,25 @@ def ws_state(a, grid, K):
     f = dict(vort=fld((K,), True, 1.0), div=fld((K,), True, 1.0), Tdev=fld((K,), False, 16.0), lnps=fld((1,), False, 0.125),
              oro=fld((), False, 1.0 / 64) if a.get('oro') else np.zeros(grid.modal_shape))
     f['tracers'] = {'tracer_%d' % n: fld((K,), False, 1.0) for n in range(int(a.get('ntr', 0)))}
+    cls = a.get('cls', 'dry')
+    if cls in ('moist', 'cloud'):
+        # humidity (and lnps where requested) restricted to degree <= qlmax: the moist classes are claimed where the
+        # Leibniz obligation holds on the grid
+        ql = int(a.get('qlmax', lmax)); lcut = (np.arange(grid.modal_shape[1]) <= ql)[None, :]
+        f['tracers'][QN] = fld((K,), False, 1.0 / 64) * lcut
+        if 'qlmax' in a: f['lnps'] = f['lnps'] * lcut
+        if cls == 'cloud':
+            cl = float(a.get('cloud', 0.0))
+            f['tracers'][QC] = fld((K,), False, 1.0 / 64) * lcut * (1.0 if cl else 0.0)
+            f['tracers'][QI] = fld((K,), False, 1.0 / 64) * lcut * (1.0 if cl else 0.0)
     return f
+
+
+def ws_names(a, f):
+    """tracer order of the model: specific_humidity, cloud liquid, cloud ice, then the passive tracers"""
+    cls = a.get('cls', 'dry')
+    lead = [QN] if cls == 'moist' else [QN, QC, QI] if cls == 'cloud' else []
+    return lead + sorted(n for n in f['tracers'] if n not in lead)
 
 
 def flat_state(st, names):
@@ -823,7 +852,7 @@ def r_whole_state(ctx, a):
     grid = tiny_grid(a['tgrid'])
     vert = j['sc'].SigmaCoordinates(np.asarray(a['b'], dtype=np.float64))
     coords = j['cs'].CoordinateSystem(grid, vert)
-    K = vert.layers; ntr = int(a.get('ntr', 0))
+    K = vert.layers; cls = a.get('cls', 'dry'); moist = cls in ('moist', 'cloud')
     M, L = grid.longitude_wavenumbers, grid.total_wavenumbers
     I, Jn = grid.nodal_shape; R = grid.modal_shape[0]
     basis = grid.spherical_harmonics.basis
@@ -835,7 +864,7 @@ def r_whole_state(ctx, a):
     ctx.exact('whole state: table shapes of the reference layout', bool(ok_shapes), True)
     if not ok_shapes: return
     f = ws_state(a, grid, K)
-    names = sorted(f['tracers'])
+    names = ws_names(a, f); ntr = len(names)
     one = np.zeros(grid.modal_shape); one[0, 0] = 2.0 * np.sqrt(np.pi)
     # named table hypothesis H_one of C04_whole_state_split_invariance: to_nodal(onem00 v00) = 1 on the node range
     err1 = A(np.asarray(grid.to_nodal(one)) - 1.0)
@@ -843,7 +872,7 @@ def r_whole_state(ctx, a):
                          err1 <= 2.0 ** -36, {'error': err1})
     ls = np.log(vert.centers)
     eta = float(a.get('eta', 0.5))
-    ints = [M, L, I, Jn, K, ntr]
+    ints = [M, L, I, Jn, K, ntr, int(cls == 'cloud')]
     Tbase = float(a.get('Tbase', 250.0))
     # gains of the linear operators (rigorous bounds for the comparison scales)
     GM = float(np.max(np.einsum('j,ia,ajl->al', np.abs(tw), np.abs(tf), np.abs(tp))))       # |to_modal z| <= GM max|z|
@@ -857,18 +886,20 @@ def r_whole_state(ctx, a):
     totals_ = []
     for pi, T in enumerate(profiles):
         Tref = np.asarray(T, dtype=np.float64)
-        eq = pe.PrimitiveEquations(Tref, f['oro'], coords, specs)
+        eq = {'dry': pe.PrimitiveEquations, 'moist': pe.MoistPrimitiveEquations,
+              'cloud': pe.MoistPrimitiveEquationsWithCloudMoisture}[cls](Tref, f['oro'], coords, specs)
         Tp = f['Tdev'] + (Tbase - Tref)[:, None, None] * one
-        st = pe.State(f['vort'], f['div'], Tp, f['lnps'], dict(f['tracers']))
+        st = pe.State(f['vort'], f['div'], Tp, f['lnps'], dict(f['tracers'])) if cls == 'dry' else \
+            pe.StateWithTime(f['vort'], f['div'], Tp, f['lnps'], 0.25, dict(f['tracers']))
         e = eq.explicit_terms(st); im = eq.implicit_terms(st)
         fe = flat_state(e, names); fi = flat_state(im, names)
         totals_.append((fe, fi))
         if pi >= int(a.get('model_profiles', 1)): continue
         tr_flat = np.concatenate([f['tracers'][n].ravel() for n in names]) if names else []
         base = [tf.ravel(), tp.ravel(), tw, ta.ravel(), tb.ravel(), sec2, sin_lat,
-                [grid.radius, specs.angular_velocity, specs.g, specs.R, specs.kappa, eta], ls, a['b'], Tref, f['oro'].ravel(),
+                [grid.radius, specs.angular_velocity, specs.g, specs.R, specs.kappa, eta, specs.R_vapor, specs.Cp_vapor], ls, a['b'], Tref, f['oro'].ravel(),
                 f['vort'].ravel(), f['div'].ravel(), Tp.ravel(), f['lnps'].ravel(), tr_flat]
-        aux = pe.compute_diagnostic_state(st, coords)
+        aux = pe.compute_diagnostic_state(pe.State(f['vort'], f['div'], Tp, f['lnps'], dict(f['tracers'])), coords)
         u, v = (np.asarray(t) for t in aux.cos_lat_u)
         gx, gy = (np.asarray(t)[0] for t in aux.cos_lat_grad_log_sp)
         nod = [np.asarray(aux.vorticity), np.asarray(aux.divergence), np.asarray(aux.temperature_variation), u, v, gx, gy] \
@@ -887,6 +918,16 @@ def r_whole_state(ctx, a):
         sc_e = [GM * S_c * GD, GM * S_c * GD + GM * S_ke * A(lam) + specs.g * A(f['oro']) * A(lam),
                 GM * (S_tot + S_hs(A(nod[2])) * GD), GM * U] \
             + [GM * (VT(SD, A(nod[7 + n])) + A(nod[7 + n]) * A(nod[1]) + S_hs(A(nod[7 + n])) * GD) for n in range(ntr)]
+        if moist:
+            # virtual-temperature factors and the humidity corrections
+            qa = A(nod[7]); dR = abs(specs.R_vapor - specs.R); gq = GN * GD * A(f['tracers'][QN])
+            lapn = GN * A(lam) * A(f['lnps'])
+            h_curl = A(Tref) * dR * S2 * 2 * max(A(gx), A(gy)) * gq
+            h_div = h_curl + qa * lapn * A(Tref) * dR
+            h_geo = specs.R * A(alpha) * 2 * K * qa * TT * abs(specs.R_vapor / specs.R - 1)
+            sc_e[0] = 4 * sc_e[0] + GM * h_curl
+            sc_e[1] = 4 * sc_e[1] + GM * (h_div + h_geo * A(lam))
+            sc_e[2] = 4 * sc_e[2]
         sc_e = [s_ + 1e-300 for s_ in sc_e]
         hs = specs.kappa * A(Tref) * 2 * A(alpha) / float(np.min(th)) + 2 * A(np.diff(Tref)) / (2 * float(np.min(th))) + 1e-300
         sc_i = [1.0, A(lam) * (specs.R * A(alpha) * 2 * K * A(Tp) * 8 + specs.R * A(Tref) * A(f['lnps'])) + 1e-300,
@@ -894,7 +935,7 @@ def r_whole_state(ctx, a):
         fields = ['vorticity', 'divergence', 'temperature_variation', 'log_surface_pressure'] + ['tracer'] * ntr
         mode = a.get('mode', 'full')
         # ---- stage A: compute_diagnostic_state ----
-        if mode in ('staged', 'both'):
+        if mode in ('staged', 'both') and not moist:
             md = ctx.model.call(23, ints, base)
             n3 = K * I * Jn
             cuts = [n3] * 5 + [I * Jn] * 2 + [n3] * ntr
@@ -911,8 +952,8 @@ def r_whole_state(ctx, a):
             for x_, y_, s_, n_ in zip(fe, mb, sc_e, fields):
                 ctx.corr('whole state (from the diagnostic state): explicit_terms ' + n_, x_, y_, scale=s_)
         # ---- fully composed: state -> explicit_terms ----
-        if mode in ('full', 'both'):
-            me = split_state(ctx.model.call(20, ints, base), K, R, L, ntr)
+        if mode in ('full', 'both') or moist:
+            me = split_state(ctx.model.call(26 if moist else 20, ints, base), K, R, L, ntr)
             for x_, y_, s_, n_ in zip(fe, me, sc_e, fields):
                 ctx.corr('whole state (composed): explicit_terms ' + n_, x_, y_, scale=s_)
                 ctx.exact('whole state: explicit_terms %s exactly zero at the clipped total wavenumber' % n_,
@@ -921,7 +962,7 @@ def r_whole_state(ctx, a):
         for x_, y_, s_, n_ in zip(fi, mi, sc_i, fields):
             ctx.corr('whole state: implicit_terms ' + n_, x_, y_, scale=s_)
         # ---- implicit_inverse, both signs of the step; np.linalg.inv is an input table of the model ----
-        for sgn in (1.0, -1.0):
+        for sgn in ((1.0, -1.0) if cls == 'dry' else ()):
             step = sgn * eta
             mat = pe._get_implicit_term_matrix(step, coords, Tref, specs.kappa, specs.R)
             inv = np.linalg.inv(mat)
@@ -946,9 +987,10 @@ def r_whole_state(ctx, a):
     fields = ['vorticity', 'divergence', 'temperature_variation', 'log_surface_pressure'] + ['tracers'] * ntr
     for k, n_ in enumerate(fields):
         sc_ = max(A(e1[k]), A(i1[k]), A(e2[k]), A(i2[k]), 1e-30)
-        ctx.oracle_close('dry: explicit+implicit %s tendency is the same for two reference profiles' % n_, e1[k] + i1[k], e2[k] + i2[k], scale=sc_)
+        if cls == 'cloud' and a.get('cloud') and n_ in ('vorticity', 'divergence'): continue      # known finding (runner cloud_nonzero)
+        ctx.oracle_close('%s: explicit+implicit %s tendency is the same for two reference profiles' % (cls, n_), e1[k] + i1[k], e2[k] + i2[k], scale=sc_)
     ctx.oracle('reference profiles differ (test not vacuous)', a['T1'] != a['T2'], None)
-    ctx.count('whole_state:%s K=%d ntr=%d oro=%d %s' % (a['tgrid'], K, ntr, int(bool(a.get('oro'))), a.get('mode', 'full')))
+    ctx.count('whole_state:%s %s K=%d ntr=%d oro=%d %s' % (cls, a['tgrid'], K, ntr, int(bool(a.get('oro'))), a.get('mode', 'full')))
 
 
 RUNNERS = {'whole_state': r_whole_state, 'jit_order': r_jit_order, 'object_reuse': r_object_reuse, 'corr': r_corr, 't_omega': r_t_omega, 'oracle': r_oracle, 'cloud_nonzero': r_cloud_nonzero,
